@@ -31,6 +31,49 @@ def find_eq_guard(ctx, fn, want_a, want_b):
             res.append((g, g.edge(truth), g.edge(not truth)))
     if not res:
         res = find_eq_guard_in_helpers(ctx, fn, want_a, want_b)
+    if not res:
+        res = find_eq_guard_in_update_closure(ctx, fn, want_a, want_b)
+    return res
+
+
+def find_eq_guard_in_update_closure(ctx, fn, want_a, want_b):
+    """`ITEM.update(storage, |old| { if a != b { return Err(..) } ..; Ok(new) })?`: the closure runs between the load and the
+    save, its parameter is the stored value, an Err leaves the item untouched and is propagated.  A guard inside it that
+    dominates every Ok exit of the closure guards the write; the `?` on the update call guards everything after it."""
+    P = ctx.P
+    res = []
+    for b, p, fr, t in P.calls(fn):
+        if not p or not re.search(r"cw_storage_plus::(item::)?Item::update$", common.generic_path(p)):
+            continue
+        cv = P.val_call(fn, fn.body, b)
+        if len(cv[4]) != 3 or cv[4][2][0] != "agg" or cv[4][2][1] != "closure":
+            continue
+        cf = P.fn(cv[4][2][2])
+        pg = common.propagated(P, fn, b)
+        if cf is None or cf.body is None or pg is None:
+            continue
+        item = "|".join(sorted(ctx.roots(cv[4][0])))
+        old = "P:%s#1" % cf.path
+
+        def rs(v):
+            return {r.replace(old, "load(%s)" % item) for r in ctx.roots(v)}
+        for g in common.bool_guards(P, cf):
+            c = g.cond
+            if c[0] != "cmp" or c[1] not in ("eq", "ne") or len(c[2]) != 2:
+                continue
+            ra, rb = rs(c[2][0]), rs(c[2][1])
+            if not ((ra == want_a and rb == want_b) or (ra == want_b and rb == want_a)):
+                continue
+            truth = (c[1] == "eq")
+            ok, why = common.fail_edge_only_errors(P, cf, g.edge(not truth))
+            if not ok:
+                continue
+            if not all(cf.body.edge_dominates(g.edge(truth), eb) for (eb, i_, cls, v) in common.ok_exit_blocks(P, cf)):
+                continue
+            s, cont, brk = pg
+            hg = _HelperGuard(b)
+            hg.own_sink = b
+            res.append((hg, cont, brk))
     return res
 
 
@@ -126,7 +169,11 @@ def guard_in_handler(ctx, inst, fn, want_a, want_b, what, sinks=None):
     best = None
     for g, pe, fe in gs:
         trial = type(inst)(inst.id, inst.desc)
-        check_protected(ctx, trial, fn, pe, fe, what, sinks)
+        sk_ = sinks
+        if getattr(g, "own_sink", None) is not None:
+            # the guard lives in the update closure: the update's own write happens behind it (inside the call)
+            sk_ = [x for x in (sinks if sinks is not None else roles.sink_blocks(ctx.P, fn)) if x[0] != g.own_sink]
+        check_protected(ctx, trial, fn, pe, fe, what, sk_)
         if trial.status == "pass":
             inst.sites.extend(trial.sites)
             inst.evaluations += trial.evaluations
@@ -256,7 +303,7 @@ def run(ctx):
         where = common.span_of_block_term(fn, b)
         if h is not None and fn.path == h[3].path:
             own = [i - 1 for i in range(1, fn.body.arg_count + 1) if fn.body.names.get(i) == "owner" or fn.body.locals[i]["ty"] == "std::option::Option<std::string::String>"]
-            allowed = {"load(%s).owner" % ctx.N.FACTORY_CONFIG} | {"canon(%s)" % P_(fn, i) for i in own}
+            allowed = {"load(%s).owner" % ctx.N.FACTORY_CONFIG} | {"canon(%s)" % P_(fn, i) for i in own} | {"canon(valid(%s))" % P_(fn, i) for i in own}
             # `new.unwrap_or(stored)` is the same choice written as one expression: or(a;b) -> {a, b}
             flat_ = set()
             for r_ in owner_roots:
@@ -277,7 +324,13 @@ def run(ctx):
             else:
                 r5.site("%s: initial owner ⊢ %s" % (where, sorted(owner_roots)))
         else:
-            r5.fail("C14.R5:foreign-writer:%s" % fn.path, fn.path, where, "factory CONFIG is written outside instantiate / the UpdateConfig handler")
+            # another owner-only handler (a message added later, policy inferred by R0) may rewrite the record as long as it
+            # keeps the stored owner
+            keys_ = [k_ for k_, h_ in handlers.items() if k_[0] == "factory" and h_[3].path == fn.path and POLICY_RUN.get(k_) == "owner"]
+            if keys_ and owner_roots == {"load(%s).owner" % ctx.N.FACTORY_CONFIG}:
+                r5.site("%s: %s (owner-only) rewrites CONFIG keeping the stored owner" % (where, keys_[0][1]))
+            else:
+                r5.fail("C14.R5:foreign-writer:%s" % fn.path, fn.path, where, "factory CONFIG is written outside instantiate / the UpdateConfig handler")
 
     # ---- R6 pair decimals update: factory-only -----------------------------------------------
     r6 = ctx.inst("C14.R6", "pair UpdateNativeTokenDecimals: effects behind sender == stored factory; pair CONFIG written only at instantiation from info.sender", floor=2)
